@@ -20,6 +20,7 @@ import (
 	"time"
 
 	"github.com/yandex/pandora/core"
+	"github.com/yandex/pandora/core/coreutil"
 	"github.com/yandex/pandora/core/aggregator/netsample"
 	"github.com/yandex/pandora/core/config"
 	"github.com/yandex/pandora/core/engine"
@@ -70,6 +71,9 @@ func (a *recAggr) Report(s core.Sample) {
 	a.mu.Lock()
 	a.samples = append(a.samples, rs)
 	a.mu.Unlock()
+	// like the real aggregators: a handled sample goes back to the pool it was borrowed from, so the guns of the
+	// run meet recycled samples (a field a gun forgets to set then carries another request's value)
+	coreutil.ReturnSampleIfBorrowed(s)
 }
 
 func (a *recAggr) Samples() []recSample {
